@@ -201,5 +201,16 @@ pub fn size_boundary_plans() -> Vec<Vec<crate::rec::UnitPlan>> {
         v.push(one(vec![RespDatum::Block(B(tail.to_vec()))]));
         v.push(one(vec![RespDatum::Str(B(tail.to_vec()))]));
     }
+    // lists given as one datum, every pattern of empty / non-empty items up to 4 items, alone and between other data
+    for n in 1..=4u32 {
+        for mask in 0..(1u32 << n) {
+            let items: Vec<B> = (0..n).map(|i| if mask >> i & 1 == 1 { B::from("LBL") } else { B::default() }).collect();
+            if n > 1 || mask != 0 {
+                // (one empty item alone is a response unit without text: left out, the property does not say what frames it)
+                v.push(one(vec![RespDatum::ChrList(items.clone())]));
+            }
+            v.push(one(vec![RespDatum::U8(n as u8), RespDatum::ChrList(items), RespDatum::U8(9)]));
+        }
+    }
     v
 }
